@@ -1,4 +1,4 @@
 (* Extraction of the C09 model: ExtrOcamlBasic + ExtrOcamlString only; nat stays inductive. *)
 From Coq Require Import Extraction ExtrOcamlBasic ExtrOcamlString.
 From LC Require Import HeapDefs.
-Extraction "heap_model.ml" init step_conc readds getd alive gc.
+Extraction "heap_model.ml" init step_conc readds getd alive gc bad_arg seq_conc reach_set.
